@@ -9,8 +9,10 @@ import GqlProofs.Format.PrintLong
     enum / boolean / null raw texts, operation keyword) are lexer Names (`isNameB`);
   * Int / Float raw texts are one number lexeme of that kind (`numRaw`: the specification's
     `numberToken` reads exactly the raw text);
-  * string values (quoted or block) are well-formed UTF-8 (`strRaw`) — otherwise the lexer replaces
-    bytes by U+FFFD (`C12_quote_illformed_counterexample`);
+  * string VALUES (quoted or block) are arbitrary byte strings: `Value.String()` writes both as a
+    quoted string, every byte ≥ 0x80 verbatim, and the lexer keeps the source bytes of a string
+    literal whether or not it contains escapes (`C12_quote_roundtrip_bytes`; before the repair of
+    `readString` well-formed UTF-8 had to be required here);
   * a selection set that the grammar requires (operation, fragment definition, inline fragment) is
     not empty: the formatter writes nothing at all for an empty one, not `{}`.
 
@@ -72,8 +74,8 @@ mutual
       | .enum => isNameB raw
       | .int => numRaw .int raw
       | .float => numRaw .float raw
-      | .string => strRaw raw
-      | .block => strRaw raw
+      | .string => true
+      | .block => true
       | .list => itemsOk ch
       | .object => fieldsOk ch
   def itemsOk : Children → Bool
